@@ -111,3 +111,24 @@ Theorem c08_late_checkpoint_refuted :
     /\ compile unfixed_params no_texts (l ++ later) a <> compile unfixed_params no_texts l a.
 Proof. exact late_checkpoint_refuted. Qed.
 Print Assumptions c08_late_checkpoint_refuted.
+
+(* 4. CONCURRENT APPENDS.  The tail path takes the messages from the mr sidecar and the head from the full sidecar.
+   While a frame that is not in the mr projection is being appended, the compile sees the thread after the append
+   (every stage of the append: the projection is unchanged, the head is the new frame) ... *)
+Theorem c08_racing_non_mr_frame : forall keep l f a,
+  incr (l ++ [f]) -> (forall g, mr_keep g = true -> keep g = true) -> keep f = false ->
+  existsb (is_anchor a) (filter keep l) = true ->
+  tail_cut (filter keep l) (head_seq (l ++ [f])) a = cut_point (l ++ [f]) a.
+Proof. exact racing_cut_non_mr_frame. Qed.
+Print Assumptions c08_racing_non_mr_frame.
+
+(* ... S24: while a MESSAGE is being appended (full sidecar written, mr sidecar not yet) the cut is neither that of
+   the thread before nor after (witness replayed on the implementation: corpus/C08/s24_cut_during_append.json; open
+   finding `cut_ahead_of_mr_sidecar_during_append`) *)
+Theorem c08_racing_cut_refuted :
+  exists l f a,
+    valid_log (l ++ [f]) = true
+    /\ tail_cut (filter mr_keep l) (head_seq (l ++ [f])) a <> cut_point l a
+    /\ tail_cut (filter mr_keep l) (head_seq (l ++ [f])) a <> cut_point (l ++ [f]) a.
+Proof. exact racing_cut_refuted. Qed.
+Print Assumptions c08_racing_cut_refuted.
